@@ -3,6 +3,11 @@ abstract.FileDescriptor is subclassed with a scripted writeSomeData and driven b
 
 case = {"sl": SEND_LIMIT, "bs": bufferSize, "scale": F, "ops": [op...]}
   op   = ["w", hex] | ["ws", [hex...]] | ["reg", streaming, [[pact...]...]] | ["unreg"] | ["lose"] | ["losew"]
+       | ["wst", [hex...]]   writeSequence(tuple)
+       | ["wsp", j]          writeSequence(pool[j]) -- the caller-owned list object pool[j] itself (3 lists, reused)
+       | ["pa", j, hex]      the caller appends to pool[j]      | ["pc", j]  the caller clears it (del pool[j][:])
+         (what was written is the content of the list AT CALL TIME; the transport must never change the caller's list:
+          flag "m" after an op = some pool list differs from what the caller put there)
        | ["dw", k] | ["dwerr"] | ["drop"]
   pact = ["w", hex] | ["ws", [hex...]] | ["unreg"] | ["lose"] | ["losew"]       (what a producer does inside one
                                                                                 resumeProducing call)
@@ -116,6 +121,8 @@ def impl(case) -> str:
     fd.connected = 1
     fd.startReading()
     nextid = [0]
+    pool = [[], [], []]          # caller-owned list objects handed to writeSequence as they are
+    shadow = [[], [], []]        # what the caller put into them
 
     def act(a):
         k = a[0]
@@ -123,6 +130,16 @@ def impl(case) -> str:
             fd.write(_expand(a[1], F))
         elif k == "ws":
             fd.writeSequence([_expand(h, F) for h in a[1]])
+        elif k == "wst":
+            fd.writeSequence(tuple(_expand(h, F) for h in a[1]))
+        elif k == "wsp":
+            fd.writeSequence(pool[a[1]])
+        elif k == "pa":
+            pool[a[1]].append(_expand(a[2], F))
+            shadow[a[1]].append(_expand(a[2], F))
+        elif k == "pc":
+            del pool[a[1]][:]
+            del shadow[a[1]][:]
         elif k == "unreg":
             fd.unregisterProducer()
         elif k == "lose":
@@ -142,7 +159,7 @@ def impl(case) -> str:
     for op in case["ops"]:
         del ev[:]
         k = op[0]
-        if k in ("w", "ws", "unreg", "lose", "losew"):
+        if k in ("w", "ws", "wst", "wsp", "pa", "pc", "unreg", "lose", "losew"):
             act(op)
         elif k == "reg":
             p = Producer(nextid[0], op[2])
@@ -165,7 +182,7 @@ def impl(case) -> str:
         else:
             raise AssertionError(op)
         out.append((",".join(ev) or "-") + "|" + ("W" if fd in reactor.writers else "") +
-                   ("R" if fd in reactor.readers else ""))
+                   ("R" if fd in reactor.readers else "") + ("m" if pool != shadow else ""))
     return " ".join(out)
 
 
@@ -276,12 +293,17 @@ def oracle(case, obs):
                                "close-with-pull-producer")
             if not losing:
                 return Failure(case, where + "clean close without loseConnection", "close-unrequested")
+            if told:
+                return Failure(case, where + "the buffer drained while the streaming producer was paused: it must be "
+                               "resumed, but the connection was closed instead (the rest of its data is never written)",
+                               "close-with-paused-producer")
             lost = True
         elif e == "L0":
             lost = True
         return None
 
     scripts = {}
+    opool = [[], [], []]
     for i, (op, rec) in enumerate(zip(ops, recs)):
         where = f"op {i} {op[0]}: "
         evs, _, flags = rec.partition("|")
@@ -290,8 +312,14 @@ def oracle(case, obs):
         # the harness-visible effects of the op itself, in program order, interleaved with the events
         if k == "w":
             on_write([bytes.fromhex(op[1])] if op[1] else [], where)
-        elif k == "ws":
+        elif k in ("ws", "wst"):
             on_write([bytes.fromhex(h) for h in op[1]], where)
+        elif k == "wsp":
+            on_write(list(opool[op[1]]), where)          # what the list held when it was handed over
+        elif k == "pa":
+            opool[op[1]].append(bytes.fromhex(op[2]))
+        elif k == "pc":
+            del opool[op[1]][:]
         elif k == "unreg":
             cur = None
             told = False
@@ -319,6 +347,9 @@ def oracle(case, obs):
             if r is not None:
                 return r
         # state predicates after the op
+        if "m" in flags:
+            return Failure(case, where + "a list object the caller handed to writeSequence was changed by the transport "
+                           "(the transport keeps a reference to the caller's list)", "caller-list-mutated")
         unsent = len(written) - len(sent)
         if unsent and not lost and "W" not in flags:
             return Failure(case, where + f"{unsent} byte(s) buffered but the descriptor is not registered for writing "
@@ -402,9 +433,42 @@ def _gen_pacts(rng, data, sl, bs, big, streaming, last):
 def _gen_case(rng, sl, bs, nops, big, scale=1):
     data = _Data(rng)
     ops = []
-    style = rng.choice(["mixed", "mixed", "pull", "stream", "plain", "closey"])
+    style = rng.choice(["mixed", "mixed", "pull", "stream", "plain", "closey", "pool", "pausedclose"])
+    if style == "pausedclose":
+        # streaming producer paused over bufferSize, loseConnection while it is paused, then a full drain; the producer
+        # writes more when it is resumed
+        n = rng.randrange(1, 4)
+        script = [_gen_pacts(rng, data, sl, bs, big, True, False) or [["w", data.take(2)]] for _ in range(n)]
+        ops.append(["reg", True, script])
+        ops.append(["w", data.take(bs + rng.randrange(1, 4))])
+        for _ in range(rng.randrange(0, 3)):
+            ops.append(rng.choice([["dw", rng.randrange(0, 3)], ["w", data.take(rng.randrange(1, 3))]]))
+        ops.append(["lose"])
+        ops += [["dw", rng.choice([1, 2, 10 * big])] for _ in range(rng.randrange(0, 3))]
+        style = "mixed"
+        nops = rng.randrange(0, 6)
     for _ in range(nops):
         r = rng.random()
+        if style == "pool":
+            r2 = rng.random()
+            j = rng.randrange(3)
+            if r2 < 0.25:
+                ops.append(["pa", j, data.take(_len_choice(rng, sl, bs, big))])
+            elif r2 < 0.45:
+                ops.append(["wsp", j])
+            elif r2 < 0.53:
+                ops.append(["pc", j])
+            elif r2 < 0.60:
+                ops.append(["wst", [data.take(rng.randrange(0, 4)) for _ in range(rng.randrange(0, 3))]])
+            elif r2 < 0.72:
+                ops.append(["w", data.take(_len_choice(rng, sl, bs, big))])
+            elif r2 < 0.9:
+                ops.append(["dw", _k_choice(rng, sl, bs, big)])
+            elif r2 < 0.95:
+                ops.append(["reg", True, [[["w", data.take(2)]]]])
+            else:
+                ops.append(rng.choice([["lose"], ["unreg"], ["losew"]]))
+            continue
         if style == "plain":
             w = [0.45, 0.05, 0.0, 0.0, 0.03, 0.01, 0.42, 0.02, 0.02]
         elif style == "pull":
@@ -477,6 +541,13 @@ def corpus():
         # stale producerPaused flag carried to the next producer
         {"sl": 9, "bs": 1, "ops": [["reg", True, []], ["w", "0102"], ["unreg"], ["reg", True, [[["w", "03"]]]],
                                    ["dw", 9], ["dw", 9]]},
+        # the caller reuses its list: writeSequence(L); write(x); writeSequence(L) -- and flush-then-clear
+        {"sl": 4, "bs": 9, "ops": [["pa", 0, "6162"], ["pa", 0, "63"], ["wsp", 0], ["w", "78"], ["wsp", 0], ["dw", 99],
+                                   ["pc", 0], ["pa", 0, "64"], ["wsp", 0], ["pc", 0], ["dw", 99], ["wst", ["65", "66"]],
+                                   ["dw", 99]]},
+        # loseConnection while the streaming producer is paused: the drain must resume it, not close
+        {"sl": 4, "bs": 2, "ops": [["reg", True, [[["w", "6465"]], [["unreg"]]]], ["w", "616263"], ["lose"], ["dw", 99],
+                                   ["dw", 99], ["dw", 99], ["dw", 99]]},
         # empty chunks in writeSequence
         {"sl": 1, "bs": 0, "ops": [["ws", [""]], ["dw", 3], ["ws", ["", "0a", ""]], ["reg", True, []], ["ws", [""]],
                                    ["dw", 0], ["dw", 1], ["ws", []], ["w", ""]]},
@@ -511,7 +582,23 @@ def _coq_op(o):
 
 
 def to_coq(case):
-    return f"({coq_nat(case['sl'])}, {coq_nat(case['bs'])}, {coq_list([_coq_op(o) for o in case['ops']], 'op')})"
+    pool = [[], [], []]
+    terms = []
+    for o in case["ops"]:
+        k = o[0]
+        if k == "pa":
+            pool[o[1]].append(o[2])
+            terms.append("Write (@nil N)")          # caller-side only: nothing reaches the transport
+        elif k == "pc":
+            del pool[o[1]][:]
+            terms.append("Write (@nil N)")
+        elif k == "wsp":
+            terms.append(_coq_op(["ws", list(pool[o[1]])]))
+        elif k == "wst":
+            terms.append(_coq_op(["ws", o[1]]))
+        else:
+            terms.append(_coq_op(o))
+    return f"({coq_nat(case['sl'])}, {coq_nat(case['bs'])}, {coq_list(terms, 'op')})"
 
 
 def shrink(case):
@@ -548,7 +635,8 @@ SPEC = Spec(
     to_coq=to_coq,
     nontrivial=lambda c, o: ":" in o and any(t in o for t in ("L1", "R", "P", "CW")),
     histogram=_hist,
-    rule="random operation histories (3-27 ops + drain) over write / writeSequence / registerProducer(scripted "
+    rule="random operation histories (3-27 ops + drain) over write / writeSequence (fresh list, tuple, or one of three "
+         "caller-owned list objects that are reused, appended to and cleared between calls) / registerProducer(scripted "
          "push or pull producer) / unregisterProducer / loseConnection / loseWriteConnection / doWrite(k) / "
          "doWrite(error) / outside loss, SEND_LIMIT in {1,2,3,4,5,8}, bufferSize in {0,1,2,3,4,6,9}, write lengths "
          "and OS-accepted counts placed at 0, 1-3, bufferSize+-2, SEND_LIMIT+-2, everything; plus length-abstracted "
